@@ -34,17 +34,22 @@ CONFIG = dict(
              "returned; that the per-try routed lists, concatenated with the instants at which the caller receives them, are "
              "the arrival list of the timed theorems (a simulation between the LTS and the timed machine), and that the real "
              "client is either model, still rest on the client4/client6 and lease4/lease6 streams. "
-             "Five readings of the property text are FALSE of the code and kept visible as *_full with proved "
-             "*_counterexample: (1) C13_completes_bearing_full - an offer without a four-byte option 54 makes "
+             "Readings of the property text that are FALSE of the code are kept visible as *_full with proved "
+             "*_counterexample: (1) C13_completes_bearing_full (LISTED KNOWN FINDING completion-without-server-id, "
+             "known_findings.txt; oracle c13 flags it) - an offer without a four-byte option 54 makes "
              "IsCorrectServer(nil) accept exactly the ACK/NAKs without one (and ignore those that name their server); "
              "proved instead: C13_completes_wellformed_partial (offer's option 54 four bytes => the completing packet "
              "carries the same four bytes) and C13_offer_without_server_id; (2) C13_request_offered_address_full - "
              "Request applies the caller's modifiers to BOTH messages, so WithOption(OptRequestedIPAddress(x)) meant for "
              "the DISCOVER overwrites option 50 of the REQUEST; (3) C13_renew_ack_server_full - Renew keys on "
              "lease.Offer's server identifier, never the ACK's; (4) C13_release_dest_full - Release sends to the raw, "
-             "unvalidated option 54 of the ACK (nil address when absent); (5) C13_v6_reply_type_full and "
-             "C13_v6_rapid_commit_full - nclient6.Request accepts the first message of ANY type with its transaction id, "
-             "RapidSolicit returns a REPLY whether or not it carries the rapid-commit option. 'Unicast' for renewal is the "
+             "unvalidated option 54 of the ACK (nil address when absent); (5) C13_v6_rapid_commit_full - "
+             "RapidSolicit returns a REPLY whether or not it carries the rapid-commit option (the property says a "
+             "rapid-commit REPLY is accepted directly; it does not say other REPLYs are refused). Readings (2)-(5) are "
+             "outside what the property quantifies over (caller modifiers that overwrite the exchange's own options, "
+             "hand-built leases, malformed identifiers in the ACK of a completed lease) and are recorded, not flagged. "
+             "nclient6.Request used to accept the first message of ANY type carrying its transaction id: repaired in "
+             "/repo (fix: 80184de), now the theorem C13_v6_reply_type. 'Unicast' for renewal is the "
              "cleared broadcast bit only: the datagram goes to the client's configured server address (broadcast by "
              "default). A nil lease.Offer / lease.ACK (nil-pointer panic in Renew) is outside the model."),
     rule=("lease4/lease6: the real nclient4 (DiscoverOffer, Request, RequestFromOffer, Renew, Release, Inform) and nclient6 "
@@ -96,9 +101,10 @@ MANIFEST = dict(
           "address, broadcast bit clear, no option 50/54, same completion rule with the OFFER's identifier; Release: "
           "exactly one RELEASE for the leased address to (option 54 of the ACK, 67); v6: the REQUEST carries the "
           "advertise's first client id, server id, first IA_NA, first IA_PD and its own transaction id, the answer is "
-          "the first message routed to the call; RapidSolicit returns a REPLY directly and turns an ADVERTISE into a "
-          "REQUEST. Six stronger readings of the property text are false of the code and proved so "
-          "(*_counterexample). The model is tied to the code on every run by regenerated facts (source text of every "
+          "the first REPLY routed to the call (C13_v6_reply_type; /repo fix 80184de); RapidSolicit returns a REPLY directly and turns an ADVERTISE into a "
+          "REQUEST. Five stronger readings of the property text are false of the code and proved so "
+          "(*_counterexample); the one inside the property's domain - an OFFER without a four-byte server identifier "
+          "is completed by identifier-less ACK/NAKs - is a listed known finding (completion-without-server-id). The model is tied to the code on every run by regenerated facts (source text of every "
           "builder call, matcher, answer test and result construction of the nine exchange functions, ServerPort, "
           "MaxMessageSize, message-type constants) re-checked by Lean, and by running the real clients under "
           "testing/synctest against reactive scripted servers and comparing every transmitted datagram and the "
@@ -109,8 +115,8 @@ MANIFEST = dict(
                         "per-try deadline the script-level model may skip deadline-coincident packets (C13_call_script_racing, "
                         "C13_call_script_counterexample); the link between the interleaving model and the timed one is per try "
                         "(C13_call_is_find) and otherwise by the correspondence streams; "
-                        "six readings of the property text are proved counterexamples (offer without server identifier, shared "
-                        "modifiers in Request, Renew keyed on the offer, Release destination unvalidated, v6 answer of any type, "
+                        "five readings of the property text are proved counterexamples (offer without server identifier - a listed "
+                        "known finding -, shared modifiers in Request, Renew keyed on the offer, Release destination unvalidated, "
                         "REPLY without rapid commit)."),
     technique="Lean 4 proof (list find? characterisation over an abstract call, refinement of that call by the timed call machine of C11/C12, C15/C16 builder theorems) + regenerated source-text facts + model/code correspondence under virtual time with reactive scripted servers + clause oracle",
 )
